@@ -16,7 +16,12 @@ MC_Leads == {
     [text |-> "x*-y",  parse |-> "opaque", coef |-> 0,  body |-> ""],
     [text |-> "x/-y",  parse |-> "opaque", coef |-> 0,  body |-> ""],
     [text |-> "x--y",  parse |-> "opaque", coef |-> 0,  body |-> ""],
-    [text |-> "a-y",   parse |-> "opaque", coef |-> 0,  body |-> ""] }
+    [text |-> "a-y",   parse |-> "opaque", coef |-> 0,  body |-> ""],
+    \* comparisons: the leading expression itself contains '=' characters
+    [text |-> "(x>=6)*a", parse |-> "opaque", coef |-> 0,  body |-> ""],
+    [text |-> "(x<=6)*a", parse |-> "opaque", coef |-> 0,  body |-> ""],
+    [text |-> "(x==y)*a", parse |-> "opaque", coef |-> 0,  body |-> ""],
+    [text |-> "(x!=y)*a", parse |-> "opaque", coef |-> 0,  body |-> ""] }
 
 MC_Bodies == {"x", "y", "x*y", "x/y", "y/x", "2"}
 \* every accepted two-factor shape: name*name, name/name, number*name, number/name, name/number, name*number
